@@ -55,14 +55,20 @@ impl LineSpec {
 #[derive(Clone, Debug, Serialize, Deserialize)]
 pub struct Case {
     pub files: Vec<Vec<LineSpec>>,
-    /// 0 = SELECT input, 1 = COUNT(*) + ARRAY_AGG(input), 2 = the bytes are the joined file, 3 = selective table
+    /// 0 = SELECT input, 1 = COUNT(*) + ARRAY_AGG(input), 2 = the bytes are the joined file, 3 = selective table,
+    /// 4 = the files are the queried side of an OUTER JOIN whose joined file has no partner for any line
     pub kind: u8,
+    /// kind 4: what the joined file holds (nothing at all, an empty line, a line that is no row, a row with another key)
+    #[serde(default)]
+    pub joined_variant: u8,
 }
 
 pub struct C12;
 
 const DEF_ALL: &str = "CREATE TABLE t('(.*)' => l TEXT);";
 const DEF_SELECTIVE: &str = "CREATE TABLE t('^keep:(.*)' => l TEXT);";
+const DEF_OUTER: &str = "CREATE TABLE t(q = '(.*)', q[1] => m TEXT, q[9] => k TEXT DEFAULT 'K'); CREATE TABLE u('^key=(.*)' => k TEXT);";
+const JOINED_WITHOUT_PARTNER: [&str; 4] = ["", "\n", "noise\n\n", "key=other\n"];
 const DEF_JOIN: &str = "CREATE TABLE t(q = '(.*)', q[1] => m TEXT, q[9] => k TEXT DEFAULT 'K'); CREATE TABLE u(p = '(.*)', p[1] => l TEXT, p[9] => k TEXT DEFAULT 'K');";
 
 const BODIES: [&str; 19] = ["", "a", "hello world", "keep:yes", "keep:", "ÅÄÖ €", "😀", "tab\there", "mid\rcr", "  spaced  ", "{\"j\": 1}", "keep:last", "\u{feff}keep:bom", "\u{feff}", "a\u{2028}b", "a\u{85}b", "nul\0nul", "ff\u{c}vt\u{b}", "\u{2029}"];
@@ -125,6 +131,15 @@ struct Observed {
 fn run_kind(ctx: &Ctx, kind: u8, contents: &[Vec<u8>]) -> Result<Observed, Failure> {
     let panic_fail = |e: String| Failure::new("panic", e);
     match kind {
+        k if k >= 4 => {
+            // every line of the queried files has no partner: an OUTER JOIN presents each of them once all the same
+            let jpath = ctx.file("joined-without-partner.txt");
+            write_file(&jpath, JOINED_WITHOUT_PARTNER[(k as usize - 4) % JOINED_WITHOUT_PARTNER.len()].as_bytes());
+            let q = format!("SELECT m FROM t OUTER JOIN u::{} ON t.k = u.k", crate::sql::quote(&jpath.to_string_lossy()));
+            let out = run_query(ctx, DEF_OUTER, &q, contents).map_err(panic_fail)?;
+            let lines = decode_strings(&out, "m").map_err(|e| Failure::new("undecodable-output", e))?;
+            Ok(Observed { lines, count: None, errored: out.result.is_err(), total_lines: out.total_lines })
+        }
         0 | 3 => {
             let defs = if kind == 0 { DEF_ALL } else { DEF_SELECTIVE };
             let q = if kind == 0 { "SELECT input FROM t" } else { "SELECT l FROM t" };
@@ -243,7 +258,7 @@ impl Property for C12 {
 
     fn rule(&self) -> String {
         "1-4 files assembled from line bodies (empty, ASCII, non-ASCII, embedded CR, > 8 KiB, > 64 KiB, optionally one invalid-UTF-8 line; now and then a file of 1 000 - 3 000 short lines) and terminators (LF, CRLF, none at the very end); \
-         statement kinds: SELECT input, COUNT(*)+ARRAY_AGG(input), a join that loads the bytes as the joined file, a selective table. Oracle: model line splitter (split at LF, one CR before it \
+         statement kinds: SELECT input, COUNT(*)+ARRAY_AGG(input), a join that loads the bytes as the joined file, a selective table, the queried side of an OUTER JOIN whose joined file (empty, an empty line, a line that is no row, a row with another key) has no partner for any line. Oracle: model line splitter (split at LF, one CR before it \
          tolerated either way - but the same way in the queried files and in the joined file -, unterminated last line included): the query sees the lines of file 1, then file 2, ... exactly once in order; total_lines = number of lines; a run over several \
          LF-terminated files = a run over their concatenation; after an invalid line either every later well-formed line is still processed or an error is reported. Per case, for <= 6 lines, \
          all 2^(n-1) splits into files are tried. Non-trivial: >= 2 files, or a final line without newline, or a CRLF line, or an invalid line followed by >= 1 valid line; distinct by case."
@@ -274,7 +289,8 @@ impl Property for C12 {
     }
 
     fn generate(&self, t: &mut Tape, ctx: &Ctx) -> Case {
-        let kind = t.draw(4) as u8;
+        let kind = t.draw(5) as u8;
+        let joined_variant = t.draw(4) as u8;
         let nfiles = 1 + t.weighted(&[4, 3, 2, 1]);
         let mut files = Vec::new();
         let mut invalid_used = ctx.excluded("c12_invalid_utf8") || !t.chance(1, 4);
@@ -318,10 +334,14 @@ impl Property for C12 {
             many.extend(files[0].drain(..));
             files[0] = many;
         }
-        Case { files, kind }
+        Case { files, kind, joined_variant }
     }
 
     fn check(&self, case: &Case, ctx: &Ctx, obs: &mut Obs) -> Result<(), Failure> {
+        let kind = if case.kind >= 4 { 4 + case.joined_variant % 4 } else { case.kind };
+        if kind >= 4 {
+            obs.label("outer-join-without-partners");
+        }
         let all_specs: Vec<&LineSpec> = case.files.iter().flatten().collect();
         let has_invalid = all_specs.iter().any(|l| !l.valid());
         let multi = case.files.len() >= 2;
@@ -347,23 +367,23 @@ impl Property for C12 {
 
         // 1. the files as given
         let contents: Vec<Vec<u8>> = case.files.iter().map(|f| file_bytes(f)).collect();
-        let observed = run_kind(ctx, case.kind, &contents)?;
+        let observed = run_kind(ctx, kind, &contents)?;
         // for the join kind several files are concatenated byte-wise: an unterminated last line merges with the next file's first
-        if case.kind == 2 && case.files.iter().rev().skip(1).any(|f| f.last().map(|l| l.term == Term::None).unwrap_or(false)) {
+        if kind == 2 && case.files.iter().rev().skip(1).any(|f| f.last().map(|l| l.term == Term::None).unwrap_or(false)) {
             obs.unspecified += 1;
         } else {
-            compare(case.kind, &case.files, &observed)?;
+            compare(kind, &case.files, &observed)?;
         }
 
         // 2. several newline-terminated files = their concatenation
         let all_terminated = case.files.iter().all(|f| f.last().map(|l| l.term != Term::None).unwrap_or(true));
-        if multi && all_terminated && case.kind != 2 && !has_invalid {
+        if multi && all_terminated && kind != 2 && !has_invalid {
             let concat: Vec<u8> = contents.iter().flat_map(|c| c.iter().copied()).collect();
-            let single = run_kind(ctx, case.kind, &[concat])?;
+            let single = run_kind(ctx, kind, &[concat])?;
             obs.inner += 1;
             if single.lines != observed.lines || single.count != observed.count || single.errored != observed.errored {
                 return Err(Failure::new(
-                    format!("concat-differs: kind{}", case.kind),
+                    format!("concat-differs: kind{}", kind),
                     format!("{} files give {} lines, their concatenation gives {} lines", case.files.len(), observed.lines.len(), single.lines.len()),
                 ));
             }
@@ -391,7 +411,7 @@ impl Property for C12 {
         let flat: Vec<LineSpec> = case.files.iter().flatten().cloned().collect();
         let n = flat.len();
         let inner_terminated = n > 0 && flat[..n - 1].iter().all(|l| l.term != Term::None);
-        if n >= 2 && n <= 6 && inner_terminated && case.kind != 2 && !flat.iter().any(|l| matches!(l.body, Body::Repeat(_, _))) {
+        if n >= 2 && n <= 6 && inner_terminated && kind != 2 && !flat.iter().any(|l| matches!(l.body, Body::Repeat(_, _))) {
             obs.label("all-splits");
             for mask in 0u32..(1 << (n - 1)) {
                 let mut files: Vec<Vec<LineSpec>> = vec![Vec::new()];
@@ -402,9 +422,9 @@ impl Property for C12 {
                     }
                 }
                 let contents: Vec<Vec<u8>> = files.iter().map(|f| file_bytes(f)).collect();
-                let observed = run_kind(ctx, case.kind, &contents)?;
+                let observed = run_kind(ctx, kind, &contents)?;
                 obs.inner += 1;
-                compare(case.kind, &files, &observed)?;
+                compare(kind, &files, &observed)?;
             }
         }
         Ok(())
